@@ -478,3 +478,90 @@ func Tree(t *rapid.T, o TreeOpts, depth int, label string) *model.Node {
 	}
 	return Scalar(t, o.Scalar, label)
 }
+
+// ProjectOpts steers Project.
+type ProjectOpts struct {
+	MaxTypes   int  // scalar user types @s0.. (default 3)
+	KeyType    bool // may add a string type @key used as key shortcut
+	RegexType  bool // may add a regex type @re
+	Container  bool // may add a container type @obj reachable through value shortcuts
+	EnumNotes  bool // enum rules / inline lists may carry item comments
+	Depth      int  // max depth of the root tree (default 3)
+}
+
+// Project draws a project of scalar types, optional enum rule and a root tree; examples may or may
+// not satisfy their rules (use rules.Evaluate to know).
+func Project(t *rapid.T, o ProjectOpts) *model.Project {
+	if o.MaxTypes == 0 {
+		o.MaxTypes = 3
+	}
+	if o.Depth == 0 {
+		o.Depth = 3
+	}
+	p := &model.Project{}
+	if rapid.IntRange(0, 2).Draw(t, "enumrules") == 0 {
+		items := []model.Val{}
+		for _, l := range rapid.SliceOfNDistinct(rapid.SampledFrom([]string{`"a"`, `"A"`, `1`, `2.5`, `true`, `null`, `"ab"`, `0`, `"1"`}), 1, 4, func(s string) string { return s }).Draw(t, "enumitems") {
+			items = append(items, model.LitVal(l))
+		}
+		e := model.EnumRule{Name: "@e0", Items: items}
+		if o.EnumNotes && rapid.Bool().Draw(t, "enumnotes") {
+			for range items {
+				e.Notes = append(e.Notes, rapid.SampledFrom([]string{"", "first", "an item"}).Draw(t, "en"))
+			}
+		}
+		p.Enums = append(p.Enums, e)
+	}
+	so := ScalarOpts{Enums: p.Enums}
+	nt := rapid.IntRange(0, o.MaxTypes).Draw(t, "ntypes")
+	for i := 0; i < nt; i++ {
+		name := fmt.Sprintf("@s%d", i)
+		so.Types = p.Types // earlier types only: no reference cycles
+		p.Types = append(p.Types, model.Type{Name: name, Node: Scalar(t, so, name)})
+	}
+	if o.RegexType && rapid.IntRange(0, 3).Draw(t, "regextype") == 0 {
+		p.Types = append(p.Types, model.Type{Name: "@re", Regex: rapid.SampledFrom([]string{"/^a/", "/b$/", `/^[a-z]+$/`, `/\d/`}).Draw(t, "re")})
+	}
+	so.Types = p.Types
+	var refNames []string
+	for _, ty := range p.Types {
+		refNames = append(refNames, ty.Name)
+	}
+	to := TreeOpts{Scalar: so, RefTypes: refNames}
+	if o.KeyType && rapid.IntRange(0, 2).Draw(t, "keytype") == 0 {
+		p.Types = append(p.Types, model.Type{Name: "@key", Node: model.Scalar("string", `"kk"`, model.R("regex", model.Str("^k+$")))})
+		to.KeyType = "@key"
+	}
+	if o.Container && rapid.IntRange(0, 3).Draw(t, "containertype") == 0 {
+		p.Types = append(p.Types, model.Type{Name: "@obj", Node: Tree(t, to, 2, "@obj")})
+		to.RefTypes = append(to.RefTypes, "@obj")
+	}
+	p.Root = Tree(t, to, rapid.IntRange(0, o.Depth).Draw(t, "depth"), "root")
+	if o.EnumNotes && rapid.IntRange(0, 3).Draw(t, "itemnotes") == 0 {
+		p.Root.Walk(func(n *model.Node) {
+			for i, r := range n.Rules {
+				if r.Name == "enum" && r.Val.K == "list" {
+					notes := make([]string, len(r.Val.Items))
+					for j := range notes {
+						notes[j] = rapid.SampledFrom([]string{"", "c", "the item"}).Draw(t, "inote")
+					}
+					n.Rules[i].Val.Notes = notes
+				}
+			}
+		})
+	}
+	return p
+}
+
+// Permutation draws a permutation of 0..n-1.
+func Permutation(t *rapid.T, n int, label string) []int {
+	p := make([]int, n)
+	for i := range p {
+		p[i] = i
+	}
+	for i := n - 1; i > 0; i-- {
+		j := rapid.IntRange(0, i).Draw(t, label)
+		p[i], p[j] = p[j], p[i]
+	}
+	return p
+}
